@@ -287,6 +287,8 @@ class Fn:
                     is_addr = bool(sa) and self.n(sa)['c'] == 'UnaryOperator' and self.n(sa).get('op') == '&'
                     if mode == 'ref' and nd.get('cn') in FORWARDING_ONLY and str(nd.get('ct', '')).startswith('std::'):
                         continue        # a forwarding reference (Args &&...) of a constructing call: the argument is only read
+                    if mode == 'ref' and c in ('CXXConstructExpr', 'CXXTemporaryObjectExpr') and nd.get('ct') in ('std::pair::pair', 'std::tuple::tuple'):
+                        continue        # pair(U1 &&, U2 &&) / tuple(UTypes &&...): the elements are copied from the arguments
                     if mode == 'ref' or (mode == 'ptr' and is_addr):
                         v = self.var_of(a)
                         if v is not None and v in defs:
@@ -328,6 +330,21 @@ class Fn:
         if d['writes'] or d.get('captured_byref'):
             return None
         return d['init']
+
+    def through_refs(self, t, depth=0):
+        """the term with every reference-typed local (`auto &r = E`) replaced by the term of the object it is bound to; a
+        reference is never re-seated, so member calls and assignments through it do not change what it designates (the
+        caller decides whether the variables occurring in E may have changed since the binding)"""
+        if not isinstance(t, tuple) or depth > 20:
+            return t
+        if t and t[0] == 'local' and len(t) == 3:
+            d = self.defs.get(t[2])
+            if d and d.get('init') and not d.get('param'):
+                ty = self.unit.type(d.get('t')) if d.get('t') else None
+                if ty and ty.get('ref'):
+                    return self.through_refs(self.term(d['init'], inline=True), depth + 1)
+            return t
+        return tuple(self.through_refs(x, depth + 1) for x in t)
 
     # ------------------------------------------------------------- terms
     def term(self, i, inline=True, depth=0):
